@@ -71,7 +71,15 @@ pub fn eval(expr: Node) -> Result<Complex<f64>, Box<dyn error::Error>> {
         Asin(sub_expr) => Ok(eval(*sub_expr)?.asin()),
         Acos(sub_expr) => Ok(eval(*sub_expr)?.acos()),
         Atan(sub_expr) => Ok(eval(*sub_expr)?.atan()),
-        Arsinh(sub_expr) => Ok(eval(*sub_expr)?.asinh()),
+        Arsinh(sub_expr) => {
+            let z = eval(*sub_expr)?;
+            if z.re < 0.0 {
+                // ln(z + sqrt(1 + z^2)) cancels for a large negative real part; asinh is odd
+                Ok(-((-z).asinh()))
+            } else {
+                Ok(z.asinh())
+            }
+        }
         Arcosh(sub_expr) => Ok(eval(*sub_expr)?.acosh()),
         Artanh(sub_expr) => Ok(eval(*sub_expr)?.atanh()),
         Sqrt(sub_expr) => Ok(eval(*sub_expr)?.sqrt()),
